@@ -8,6 +8,7 @@ import (
 	"os"
 	"strings"
 	"sync"
+	"sync/atomic"
 	"time"
 
 	tpb "github.com/fullstorydev/grpchan/grpchantesting"
@@ -524,12 +525,13 @@ func runC04Extra(e *core.Env) {
 			parent, cancel = context.WithCancel(parent)
 		}
 		defer cancel()
-		var body *gatedBody
+		var bodyP atomic.Pointer[gatedBody]
 		ch := &httpgrpc.Channel{BaseURL: mustURL("http://c04.test/"), Transport: rtFunc(func(rq *http.Request) (*http.Response, error) {
 			if rq.Body != nil {
 				go io.Copy(io.Discard, rq.Body)
 			}
-			body = &gatedBody{first: append([]byte{}, full[:cut]...), ctx: rq.Context(), inRead: make(chan struct{})}
+			body := &gatedBody{first: append([]byte{}, full[:cut]...), ctx: rq.Context(), inRead: make(chan struct{})}
+			bodyP.Store(body)
 			h := http.Header{}
 			if stream {
 				h.Set("Content-Type", httpgrpc.StreamRpcContentType_V1)
@@ -565,7 +567,7 @@ func runC04Extra(e *core.Env) {
 		}()
 		// wait until the library is blocked reading the rest of the body
 		for k := 0; k < 5000; k++ {
-			if body != nil {
+			if body := bodyP.Load(); body != nil {
 				select {
 				case <-body.inRead:
 					k = 1 << 30
